@@ -126,6 +126,7 @@ pub fn exec(case: &Value) -> Value {
     let mut nfr = vec![];
     let mut npc = vec![];
     let mut ndeg = vec![];
+    let mut covers: Vec<Vec<u8>> = vec![];
     for t in 0..nt {
         let mut fb = Framebuf {
             color_buf: Buf2::new_from((bw, bh), std::iter::repeat(C0)),
@@ -165,6 +166,7 @@ pub fn exec(case: &Value) -> Value {
             .collect();
         fp.push(f);
         nfr.push(n);
+        covers.push(cover.iter().map(|&c| c.min(2)).collect::<Vec<u8>>());
         // number of clipped pieces through the public clip API
         let tri = Tri([0, 1, 2].map(|i| ClipVert::new(verts[3 * t + i].clone())));
         let mut out = vec![];
@@ -197,17 +199,20 @@ pub fn exec(case: &Value) -> Value {
     let vsign = if (vpn(2) > vpn(0)) == (vpn(3) > vpn(1)) { 1 } else { -1 };
     let dpix: Vec<u8> = (0..np).map(|p| (((p as u32 % bw) + (p as u32 / bw)) % 3 == 0) as u8).collect();
     let col: Vec<u32> = (0..nt).map(|t| rgba((t + 1) as u8, 0x40, 0x80, 0).to_argb_u32()).collect();
-    let scene = json!({"np": np, "fp": fp, "col": col, "nfr": nfr, "npc": npc, "ndeg": ndeg, "tv": tv, "vsign": vsign, "dpix": dpix});
+    let scene = json!({"np": np, "fp": fp, "col": col, "nfr": nfr, "npc": npc, "ndeg": ndeg, "tv": tv, "vsign": vsign, "dpix": dpix, "cover": covers});
 
     // ---- histories
     let mut hists = vec![];
     for h in case["hists"].as_array().unwrap() {
         let calls = h.as_array().unwrap();
         let kind = gs(&calls[0]["ctx"], "kind").to_string();
-        let mut fb = Framebuf {
-            color_buf: Buf2::new_from((bw, bh), std::iter::repeat(C0)),
-            depth_buf: Buf2::new_from((bw, bh), std::iter::repeat(0.0f32)),
-        };
+        // win 0: the planes are the targets; 1: the targets are windows (MutSlice2, row pitch > width) of
+        // larger parent planes, re-borrowed for every call; 2: windows of windows
+        let win = (h.get(0).and_then(|c| c.get("win")).and_then(|v| v.as_i64())).unwrap_or(0);
+        let (pl, pt, pr, pb) = if win == 0 { (0u32, 0u32, 0u32, 0u32) } else { (1, 1, 2, 1) };
+        let (pw, ph) = (bw + pl + pr, bh + pt + pb);
+        let mut cpar = Buf2::new_from((pw, ph), std::iter::repeat(C0));
+        let mut zpar = Buf2::new_from((pw, ph), std::iter::repeat(0.0f32));
         let mut stats = Stats::new();
         let mut evs = vec![];
         for c in calls {
@@ -218,55 +223,83 @@ pub fn exec(case: &Value) -> Value {
             let nv = gi(c, "nv") as usize;
             let vs = &verts[..nv];
             let disc = gi(&c["ctx"], "disc") == 1;
-            let via = c.get("via").and_then(|v| v.as_str()).unwrap_or("render");
-            let via_batch = via == "batch";
-            let sh = shader(disc);
-            // the Camera front door: identity view and projection, the vertex shader passes the clip-space
-            // positions through; "camm" hands over a MIRRORING model matrix, which that shader ignores -
-            // the picture, and with it every on-screen winding, is the same
-            let cam_go = |target: &mut dyn FnMut(&re::render::cam::Camera<Mat4x4<WorldToView>>, &Mat4x4<RealToReal<3, World, World>>)| {
-                let (x0, x1) = (vpn(0).min(vpn(2)), vpn(0).max(vpn(2)));
-                let (y0, y1) = (vpn(1).min(vpn(3)), vpn(1).max(vpn(3)));
-                let mut cam = re::render::cam::Camera::new((bw, bh)).viewport((x0..x1, y0..y1)).mode(Mat4x4::<WorldToView>::identity());
-                cam.viewport = to_screen; // (mirrored viewports are not expressible through the builder)
-                let to_world: Mat4x4<RealToReal<3, World, World>> =
-                    if via == "camm" { re::math::mat::scale(re::math::vec::vec3(-1.0, 1.0, 1.0)).to() } else { Mat4x4::identity() };
-                target(&cam, &to_world)
-            };
-            let camsh = re::render::shader::Shader::new(
-                |v: Vtx, _: (&Mat4x4<RealToProj<World>>, ())| v,
-                move |f: Frag<f32>| {
-                    let (x, y) = (f.pos.x() as u32, f.pos.y() as u32);
-                    if disc && (x + y) % 3 == 0 { None } else { Some(rgba(f.var.round() as u8, 0x40, 0x80, 0)) }
-                },
-            );
-            let r = if via == "cam" || via == "camm" {
-                if kind == "fb" {
-                    guard(|| cam_go(&mut |cam, tw| cam.render(&faces, vs, tw, &camsh, (), &mut fb, &ctx)))
-                } else {
-                    guard(|| cam_go(&mut |cam, tw| cam.render(&faces, vs, tw, &camsh, (), &mut fb.color_buf, &ctx)))
+            let via = c.get("via").and_then(|v| v.as_str()).unwrap_or("render").to_string();
+            // one render call through the chosen front door into any target
+            fn call<T: Target>(
+                target: &mut T, via: &str, disc: bool, faces: &[Tri<usize>], vs: &[Vtx],
+                to_screen: Mat4x4<re::render::NdcToScreen>, dims: (u32, u32), vp: [u32; 4], ctx: &Context,
+            ) -> bool {
+                match via {
+                    "batch" => guard(|| Batch::new().faces(faces).vertices(vs).shader(shader(disc)).viewport(to_screen).target(target).context(ctx).render()).is_some(),
+                    // the Camera front door: identity view and projection, the vertex shader passes the clip-space
+                    // positions through; "camm" hands over a MIRRORING model matrix, which that shader ignores -
+                    // the picture, and with it every on-screen winding, is the same
+                    "cam" | "camm" => {
+                        let camsh = re::render::shader::Shader::new(
+                            |v: Vtx, _: (&Mat4x4<RealToProj<World>>, ())| v,
+                            move |f: Frag<f32>| {
+                                let (x, y) = (f.pos.x() as u32, f.pos.y() as u32);
+                                if disc && (x + y) % 3 == 0 { None } else { Some(rgba(f.var.round() as u8, 0x40, 0x80, 0)) }
+                            },
+                        );
+                        guard(|| {
+                            let (x0, x1) = (vp[0].min(vp[2]), vp[0].max(vp[2]));
+                            let (y0, y1) = (vp[1].min(vp[3]), vp[1].max(vp[3]));
+                            let mut cam = re::render::cam::Camera::new(dims).viewport((x0..x1, y0..y1)).mode(Mat4x4::<WorldToView>::identity());
+                            cam.viewport = to_screen; // (mirrored viewports are not expressible through the builder)
+                            let to_world: Mat4x4<RealToReal<3, World, World>> =
+                                if via == "camm" { re::math::mat::scale(re::math::vec::vec3(-1.0, 1.0, 1.0)).to() } else { Mat4x4::identity() };
+                            cam.render(faces, vs, &to_world, &camsh, (), target, ctx)
+                        })
+                        .is_some()
+                    }
+                    _ => guard(|| render(faces, vs, &shader(disc), (), to_screen, target, ctx)).is_some(),
                 }
-            } else if kind == "fb" {
-                if via_batch {
-                    guard(|| Batch::new().faces(&faces).vertices(vs).shader(sh).viewport(to_screen).target(&mut fb).context(&ctx).render())
-                } else {
-                    guard(|| render(&faces, vs, &sh, (), to_screen, &mut fb, &ctx))
+            }
+            let vp4 = [vpn(0), vpn(1), vpn(2), vpn(3)];
+            macro_rules! go {
+                ($t:expr) => {
+                    call($t, &via, disc, &faces, vs, to_screen, (bw, bh), vp4, &ctx)
+                };
+            }
+            let okcall = match (win, kind == "fb") {
+                (0, true) => go!(&mut Framebuf { color_buf: &mut cpar, depth_buf: &mut zpar }),
+                (0, false) => go!(&mut cpar),
+                (1, fbk) => {
+                    let mut cw = cpar.slice_mut((pl..pl + bw, pt..pt + bh));
+                    let zw = zpar.slice_mut((pl..pl + bw, pt..pt + bh));
+                    if fbk { go!(&mut Framebuf { color_buf: cw, depth_buf: zw }) } else { go!(&mut cw) }
                 }
-            } else if via_batch {
-                guard(|| Batch::new().faces(&faces).vertices(vs).shader(sh).viewport(to_screen).target(&mut fb.color_buf).context(&ctx).render())
-            } else {
-                guard(|| render(&faces, vs, &sh, (), to_screen, &mut fb.color_buf, &ctx))
+                (_, fbk) => {
+                    let mut cpane = cpar.slice_mut((0..pw - 1, 0..ph));
+                    let mut zpane = zpar.slice_mut((0..pw - 1, 0..ph));
+                    let mut cw = cpane.slice_mut((pl..pl + bw, pt..pt + bh));
+                    let zw = zpane.slice_mut((pl..pl + bw, pt..pt + bh));
+                    if fbk { go!(&mut Framebuf { color_buf: cw, depth_buf: zw }) } else { go!(&mut cw) }
+                }
             };
             stats = ctx.stats.borrow().clone();
             let mut e = c.clone();
             let o = e.as_object_mut().unwrap();
-            o.insert("panic".into(), json!(r.is_none() as u8));
-            o.insert("c".into(), json!(fb.color_buf.data()));
-            let z: Vec<i64> = fb.depth_buf.data().iter().map(|z| z.to_bits() as i64 & 0x7FFF_FFFF).collect();
-            if fb.depth_buf.data().iter().any(|z| !(*z >= 0.0)) {
-                ok = false;
+            o.insert("panic".into(), json!(!okcall as u8));
+            let (mut cplane, mut zplane, mut outw) = (vec![], vec![], 0);
+            for y in 0..ph {
+                for x in 0..pw {
+                    let (cv, zv) = (cpar[[x, y]], zpar[[x, y]]);
+                    if x >= pl && x < pl + bw && y >= pt && y < pt + bh {
+                        cplane.push(cv);
+                        zplane.push(zv.to_bits() as i64 & 0x7FFF_FFFF);
+                        if !(zv >= 0.0) {
+                            ok = false;
+                        }
+                    } else if cv != C0 || zv.to_bits() != 0 {
+                        outw += 1;
+                    }
+                }
             }
-            o.insert("z".into(), json!(z));
+            o.insert("c".into(), json!(cplane));
+            o.insert("z".into(), json!(zplane));
+            o.insert("outw".into(), json!(outw));
             o.insert("st".into(), stats_json(&stats));
             evs.push(e);
         }
@@ -366,7 +399,10 @@ pub fn gen(args: &Args, out: &mut dyn Write) {
             _ => {}
         }
         let painter = i % 5 == 4;
-        let nt = if painter { 3 } else { rng.range(2, 4) as usize };
+        // "gap" scenes: two near pillars left and right, a far wall behind both that shows through the
+        // gap between them - spans whose two ends are hidden while their middle is visible
+        let gap = i % 5 == 2;
+        let nt = if painter || gap { 3 } else { rng.range(2, 4) as usize };
         let pbands: Vec<(i64, i64)> = match rng.below(3) {
             0 => vec![(4, 4), (5, 5), (6, 6)],
             1 => vec![(4, 5), (6, 6), (8, 9)],
@@ -374,7 +410,14 @@ pub fn gen(args: &Args, out: &mut dyn Write) {
         };
         let mut tris = vec![];
         for t in 0..nt {
-            let tri = if painter {
+            let tri = if gap {
+                let j = |rng: &mut Rng| rng.range(-1, 1);
+                match t {
+                    0 => { let w = 5; [[-w, -w, 2 * w - 12, w], [-1 + j(&mut rng), -w, 2 * w - 12, w], [-w, w + j(&mut rng), 2 * w - 12, w]] }
+                    1 => { let w = 6; [[w, -w, 2 * w - 12, w], [w, w + j(&mut rng), 2 * w - 12, w], [1 + j(&mut rng), -w, 2 * w - 12, w]] }
+                    _ => { let w = 10; [[-8 + j(&mut rng), -8, 2 * w - 12, w], [8 + j(&mut rng), -8, 2 * w - 12, w], [j(&mut rng), 10, 2 * w - 12, w]] }
+                }
+            } else if painter {
                 // disjoint depth ranges, wholly inside the frustum; often all close to the
                 // near plane, where clip-space z is negative
                 let (lo, hi) = pbands[t];
@@ -407,6 +450,7 @@ pub fn gen(args: &Args, out: &mut dyn Write) {
                 let mut at = 0;
                 // every third history: a cut-out shader (the same for all calls of the history)
                 let disc = ((pi + ci) % 3 == 1) as u8;
+                let hwin = [0, 1, 2, 0][(pi + 2 * ci) % 4];
                 for &g in comp {
                     let ord = &perm[at..at + g];
                     at += g;
@@ -415,7 +459,7 @@ pub fn gen(args: &Args, out: &mut dyn Write) {
                     ctx["disc"] = json!(disc);
                     let need = 3 * *ord.iter().max().unwrap();
                     calls.push(json!({"ctx": ctx, "ord": ord, "nv": need.max(all_nv.min(need + 3 * rng.below(2) as usize)),
-                                      "via": if rng.chance(1, 4) { "batch" } else { "render" }}));
+                                      "via": if rng.chance(1, 4) { "batch" } else { "render" }, "win": hwin}));
                 }
                 hists.push(json!(calls));
             }
@@ -428,7 +472,7 @@ pub fn gen(args: &Args, out: &mut dyn Write) {
                 ctx["test"] = json!(0);
                 // with and without face culling: culled triangles drop out, the order of the others stays
                 ctx["cull"] = json!(pi % 3);
-                hists.push(json!([{"ctx": ctx, "ord": perm, "nv": all_nv, "via": "render"}]));
+                hists.push(json!([{"ctx": ctx, "ord": perm, "nv": all_nv, "via": "render", "win": (pi / 3) % 3}]));
             }
         }
         // C07: random flag histories on persistent buffers, both target kinds
@@ -447,7 +491,7 @@ pub fn gen(args: &Args, out: &mut dyn Write) {
                     "test": rng.below(4), "cw": rng.below(4).min(1), "dw": rng.below(4).min(1),
                     "disc": rng.below(3) / 2, "kind": kind});
                 calls.push(json!({"ctx": ctx, "ord": ord, "nv": need + rng.below(5) as usize,
-                                  "via": *rng.pick(&["render", "render", "render", "batch", "cam", "camm"])}));
+                                  "via": *rng.pick(&["render", "render", "render", "batch", "cam", "camm"]), "win": hk % 3}));
             }
             hists.push(json!(calls));
         }
